@@ -53,8 +53,9 @@ def handleTcp (k payload : String) (out : List String) : Verdict :=
       | .reply fields => if k = 0 then cls == s!"reply:{emptyReplyLen fields}" else cls.startsWith "reply:"
       | .closed => cls == "closed"
       | .panic => cls.startsWith "panic"
-    let ok := !cls.startsWith "panic" && state == "same"
-    let why := if cls.startsWith "panic" then "sig=tcp-panic " else if state != "same" then "sig=tcp-changed-state " else ""
+    let ok := !cls.startsWith "panic" && cls != "not-closed" && state == "same"
+    let why := if cls.startsWith "panic" then "sig=tcp-panic " else if cls == "not-closed" then "sig=tcp-connection-left-open "
+      else if state != "same" then "sig=tcp-changed-state " else ""
     verdict same ok (why ++ s!"model={repr m}")
   | _, _, _ => .bad "C06 tcp shape"
 
